@@ -32,6 +32,12 @@
 // verif:replace (*github.com/kubewharf/kubegateway/pkg/flowcontrols/util.Meter).Start => verifC10MeterNop
 // verif:replace (*github.com/kubewharf/kubegateway/pkg/flowcontrols/util.Meter).Stop => verifC10MeterNop
 // verif:encode crypto/tls
+// verif:encode net/http
+// verif:encode net/url
+// verif:encode net/textproto
+// verif:encode k8s.io/apiserver/pkg/endpoints/request
+// verif:encode k8s.io/api/authentication/v1
+// verif:init net/textproto
 // verif:encode k8s.io/client-go/util/cert
 // verif:encode net
 // verif:encode github.com/kubewharf/kubegateway/pkg/gateway/net
@@ -40,9 +46,20 @@
 package controllers
 
 import (
+	"context"
 	"crypto/tls"
+	"net/http"
+	"net/url"
 
+	apierrors "k8s.io/apimachinery/pkg/api/errors"
 	metav1 "k8s.io/apimachinery/pkg/apis/meta/v1"
+	"k8s.io/apimachinery/pkg/runtime"
+	"k8s.io/apimachinery/pkg/runtime/schema"
+	"k8s.io/apimachinery/pkg/runtime/serializer"
+	genericapirequest "k8s.io/apiserver/pkg/endpoints/request"
+
+	gatewayfilters "github.com/kubewharf/kubegateway/pkg/gateway/endpoints/filters"
+	gatewayrequest "github.com/kubewharf/kubegateway/pkg/gateway/endpoints/request"
 
 	proxyv1alpha1 "github.com/kubewharf/kubegateway/pkg/apis/proxy/v1alpha1"
 	"github.com/kubewharf/kubegateway/pkg/clusters"
@@ -149,5 +166,118 @@ func HarnessC10TLSMaterial() {
 		vassert(cfg == base, "C10/tls-material-for-an-unknown-name")
 	}
 	vassert(cfg.MinVersion == tls.VersionTLS12, "C10/base-configuration-lost")
+	vreach("end")
+}
+
+type c10Writer struct {
+	code int
+	hdr  http.Header
+}
+
+func (w *c10Writer) Header() http.Header {
+	if w.hdr == nil {
+		w.hdr = http.Header{}
+	}
+	return w.hdr
+}
+func (w *c10Writer) Write(b []byte) (int, error) {
+	if w.code == 0 {
+		w.code = 200
+	}
+	return len(b), nil
+}
+func (w *c10Writer) WriteHeader(code int) {
+	if w.code == 0 {
+		w.code = code
+	}
+}
+
+// engine-side model of the k8s negotiated error writer: status code of the error, through the same ResponseWriter
+func verifC10ErrorNegotiated(err error, s runtime.NegotiatedSerializer, gv schema.GroupVersion, w http.ResponseWriter, req *http.Request) int {
+	code := 500
+	if st, ok := err.(apierrors.APIStatus); ok {
+		code = int(st.Status().Code)
+	}
+	w.WriteHeader(code)
+	return code
+}
+
+var ghostC10Served *clusters.ClusterInfo
+var ghostC10Reached bool
+
+// HarnessC10HostHeaderResolution: the request path of tenant resolution: the real ExtraRequestInfoFactory (Host header ->
+// host name, lower-cased, port stripped) and the real WithUpstreamInfo filter over the real manager: a request whose
+// Host header spells a name of cluster C - any case, with or without port - is served under C; an unknown name is
+// answered 503 and goes no further.
+// verif:bounds clusters ca (alias x.io) and cb; Host header from {ca, CA, x.io, X.Io, cb, Cb, nowhere.io} with optional :6443 / :443
+// verif:replace k8s.io/apiserver/pkg/endpoints/handlers/responsewriters.ErrorNegotiated => verifC10ErrorNegotiated
+func HarnessC10HostHeaderResolution() {
+	lister := &c10Lister{objs: map[string]*proxyv1alpha1.UpstreamCluster{}}
+	m := &UpstreamClusterController{lister: lister, Manager: clusters.NewManager()}
+	oa := c10TLSCluster("ca", []string{"x.io"}, "", "", "")
+	ob := c10TLSCluster("cb", nil, "", "", "")
+	lister.objs["ca"], lister.objs["cb"] = oa, ob
+	m.syncUpstreamCluster(oa)
+	m.syncUpstreamCluster(ob)
+	ia, okA := m.Get("ca")
+	ib, okB := m.Get("cb")
+	if !okA || !okB {
+		vfail("C10/name-does-not-resolve-to-its-owner")
+		return
+	}
+	host, owner := "", ""
+	switch nondetRange("host", 0, 6) {
+	case 0:
+		host, owner = "ca", "A"
+	case 1:
+		host, owner = "CA", "A"
+	case 2:
+		host, owner = "x.io", "A"
+	case 3:
+		host, owner = "X.Io", "A"
+	case 4:
+		host, owner = "cb", "B"
+	case 5:
+		host, owner = "Cb", "B"
+	default:
+		host, owner = "nowhere.io", ""
+	}
+	switch nondetRange("port", 0, 2) {
+	case 1:
+		host += ":6443"
+	case 2:
+		host += ":443"
+	}
+	ghostC10Served, ghostC10Reached = nil, false
+	next := http.HandlerFunc(func(w http.ResponseWriter, req *http.Request) {
+		ghostC10Reached = true
+		if info, ok := gatewayrequest.ExtraRequestInfoFrom(req.Context()); ok {
+			ghostC10Served = info.UpstreamCluster
+		}
+	})
+	var ser runtime.NegotiatedSerializer
+	if vnative() {
+		ser = serializer.NewCodecFactory(runtime.NewScheme()).WithoutConversion()
+	}
+	h := gatewayfilters.WithUpstreamInfo(next, m, ser)
+	ctx := genericapirequest.WithRequestInfo(context.Background(), &genericapirequest.RequestInfo{IsResourceRequest: true, Verb: "get", Resource: "pods", Path: "/api/v1/pods"})
+	req := (&http.Request{Method: "GET", Host: host, URL: &url.URL{Path: "/api/v1/pods"}, Header: http.Header{}}).WithContext(ctx)
+	f := &gatewayrequest.ExtraRequestInfoFactory{LongRunningFunc: func(r *http.Request, ri *genericapirequest.RequestInfo) bool { return false }}
+	info, err := f.NewExtraRequestInfo(req)
+	if err != nil || info == nil {
+		vfail("C10/extra-request-info-fails")
+		return
+	}
+	req = req.WithContext(gatewayrequest.WithExtraRequestInfo(ctx, info))
+	w := &c10Writer{}
+	h.ServeHTTP(w, req)
+	switch owner {
+	case "A":
+		vassert(ghostC10Reached && ghostC10Served == ia, "C10/request-served-by-another-cluster-or-none")
+	case "B":
+		vassert(ghostC10Reached && ghostC10Served == ib, "C10/request-served-by-another-cluster-or-none")
+	default:
+		vassert(!ghostC10Reached && w.code == 503, "C10/request-for-an-unknown-name-not-answered-503")
+	}
 	vreach("end")
 }
